@@ -106,6 +106,10 @@ def gen_operand(rng, live, ncolors, depth=0, allow_boom=False):
     if rng.random() < 0.03:
         # ... or the result object of a rendering itself ("can be used as a usual CHText object")
         return {"res": rng.randrange(4)}
+    if rng.random() < 0.03:
+        # ... or one of the application's domain values: a str subclass (sorts, compares, goes to JSON as a plain
+        # string) that also says how it is shown, through the hook texts recognise (get_ch_text)
+        return {"sv": rng.choice(["FAILED", "ok", "", "two words"]), "c": rng.randrange(ncolors)}
     r = rng.random()
     if r < 0.30:
         return {"s": gen_str(rng)}
@@ -352,6 +356,7 @@ class World:
         self.sub_cls2 = type("OtherUserText", (color.CHText,), {"__doc__": "another module's subclass, also changing nothing"})
         self._foreign = None
         self._results = None
+        self._shown_cls = None
         self.real = {}      # handle -> real object
         self.model = {}     # handle -> MObj (shared between aliases)
         self.stats = {"ops_done": 0, "handles_checked": 0, "alias_ops": 0, "inplace_on_shared": 0, "faults_fired": 0,
@@ -401,7 +406,22 @@ class World:
                             self.fmt_of_style.setdefault(st, piece.clone)
         return self._results[i % len(self._results)]
 
+    def shown_value(self, o):
+        fmt = self.fmts[o["c"] % len(self.fmts)]
+        CHText = self.color.CHText
+        if self._shown_cls is None:
+            class ShownValue(str):
+                """a domain value of the application: a string that knows its colour"""
+                def get_ch_text(self):
+                    return CHText(self.fmt(str.__str__(self)))
+            self._shown_cls = ShownValue
+        v = self._shown_cls(o["sv"])
+        v.fmt = fmt
+        return v
+
     def real_operand(self, o):
+        if "sv" in o:
+            return self.shown_value(o)
         if "res" in o:
             return self.foreign_result(o["res"])
         if "fl" in o:
@@ -426,7 +446,10 @@ class World:
 
     def model_operand(self, o, out):
         """appends cells to `out`; raises BoomHit(cells appended so far) at an injected fault"""
-        if "res" in o:
+        if "sv" in o:
+            st = self.styles[o["c"] % len(self.styles)]
+            out.extend((ch, st) for ch in o["sv"])
+        elif "res" in o:
             out.extend(sgr.parse_cells(str(self.foreign_result(o["res"]))))
         elif "fl" in o:
             out.extend(sgr.parse_cells(str(self.foreign_text(o["fl"]))))
